@@ -378,8 +378,10 @@ func runC06(cx *Ctx, r *Report) {
 }
 
 // rewardFormula (C05/C06): the per-share reward calculation is
-//   pending  = ⌊rewardPerShare·locked⌋ − rewardDebt
-//   newDebt  = ⌊rewardPerShare·(locked + Δ)⌋
+//
+//	pending  = ⌊rewardPerShare·locked⌋ − rewardDebt
+//	newDebt  = ⌊rewardPerShare·(locked + Δ)⌋
+//
 // with both roundings toward zero. Rounding the debt up (or the pending amount
 // down by more) makes pending negative for some residues, which aborts every
 // later unstake/harvest of that farmer; rounding it down less pays rewards twice.
